@@ -35,13 +35,13 @@ SHARDS = {"quick": 4, "thorough": 16}
 TOL = 1e-7
 
 # set to False once repaired (VERIF_C20_NO_EXCLUDE=1 switches the exclusion off for one run)
-EXCLUDE_2D_C2_TENSOR = True and not os.environ.get("VERIF_C20_NO_EXCLUDE")
+EXCLUDE_2D_C2_TENSOR = False  # repaired in /repo (e88ac46)
 
 # known finding S4-vector: module-level VectorBasis returns the rotation axis for roto-inversions (-3, -4, -6) although they leave no
 # vector unchanged; the intersection over a group is wrong exactly when the group is the cyclic group S4 (every other group
 # containing a roto-inversion also contains an inversion, a perpendicular mirror or a second axis).  Sites (and subgroups) whose
 # point group is S4 are excluded from the vector comparison while the flag is True.
-EXCLUDE_S4_VECTOR = True and not os.environ.get("VERIF_C20_NO_EXCLUDE")
+EXCLUDE_S4_VECTOR = False  # repaired in /repo (4ee315e)
 
 ORDERS = ["sorted", "reversed", "rot1", "rot2", "evenodd"]
 
